@@ -473,6 +473,20 @@ orc_program_add_destination (OrcProgram *program, int size, const char *name)
   return orc_program_add_destination_full (program, size, name, NULL, 0);
 }
 
+/* the name the parser gives to a literal operand: "_<size>.<text>".  No
+ * identifier a user can write contains a '.', so a constant declared as
+ * "_bias" is not mistaken for one */
+static int
+orc_program_is_literal_name (const char *name)
+{
+  const char *p = name;
+
+  if (*p++ != '_') return FALSE;
+  if (*p < '0' || *p > '9') return FALSE;
+  while (*p >= '0' && *p <= '9') p++;
+  return *p == '.';
+}
+
 /**
  * orc_program_add_constant:
  * @program: a pointer to an OrcProgram structure
@@ -597,7 +611,7 @@ orc_program_add_constant_str (OrcProgram *program, int size,
   for(j=0;j<program->n_const_vars;j++){
     if (program->vars[ORC_VAR_C1 + j].value.i == val.i &&
         program->vars[ORC_VAR_C1 + j].size == size &&
-        (name[0] == '_' ||
+        (orc_program_is_literal_name (name) ||
          strcmp (program->vars[ORC_VAR_C1 + j].name, name) == 0)) {
       return ORC_VAR_C1 + j;
     }
